@@ -1,7 +1,10 @@
 SPECIFICATION MCSpec
 CONSTANTS FallbackMode = "last"
  FailFast = FALSE
+ CancelMode = "coded"
+ WaitMode = "none"
  MaxP = 3
  MaxB = 1
+ MaxDeaf = 2
 INVARIANTS Safety NeverStuckBehindOthers
 CHECK_DEADLOCK FALSE
